@@ -295,6 +295,12 @@ func checkC18(c *Ctx, r *Report) {
 			r.ok("R18.5", fnID(disp), fmt.Sprintf("all %d index/slice/assert obligations of ParseTCPRequest hold for every frame the classifier accepts (len = 6 + length field)", len(an.obligs)), c.pos(disp.Pos()), true)
 		}
 	}
+	// R18.6: what the dispatcher rejects encodes to an exception addressed to the frame (C16 R16.2)
+	{
+		tmp := newReport(r.Prop, r.Tier)
+		c16Dispatcher(c, tmp)
+		r.instance("R18.6", copyItems(tmp, r, "R16.2", "R18.6"))
+	}
 	r.assumption("request frames are those Bytes() produces under the constructor's success state")
 	r.assumption("the allow-unsupported flag is arbitrary; slice lengths below 2^31; int is 64 bits wide")
 }
